@@ -60,6 +60,17 @@ def check_title(case, stats):
         have = (t.matched_keyword, t.matched_text, t.location.get("column"), t.matched_type)
         if have != want:
             raise Violation(case, "line %r in %s: (keyword, title, column, type) = %r, expected %r" % (line, d, have, want))
+    # the parser offers ONE token to several match_* methods in turn: the answers must not depend on what was asked before
+    shared = tok(line)
+    m2 = MD(d)
+    for r2 in ["StepLine", "TagLine"] + ROLES:
+        ans = getattr(m2, "match_" + r2)(shared)
+        fresh_ans = getattr(MD(d), "match_" + r2)(tok(line))
+        if ans != fresh_ans:
+            raise Violation(case, "line %r in %s: match_%s on a token that other matchers have looked at before returns %r, on a fresh token %r" % (line, d, r2, ans, fresh_ans))
+        if ans and r2 == role and (shared.matched_keyword, shared.matched_text, shared.location.get("column")) != (role_matches(d, role, rest), TITLES[ti].strip(), ind + depth + 2):
+            raise Violation(case, "line %r in %s: token shared between matchers ends up with (keyword, title, column) = %r" % (
+                line, d, (shared.matched_keyword, shared.matched_text, shared.location.get("column"))))
     # other roles: recognised only where the language table lists a keyword of that role that fits
     for r2 in ROLES + ["StepLine"]:
         if r2 == role:
@@ -128,6 +139,14 @@ def check_step(case, stats):
     for r2 in ROLES:
         if getattr(MD(d), "match_" + r2)(tok(line)):
             raise Violation(case, "step line %r in %s also matched as %s" % (line, d, r2))
+    shared = tok(line)
+    m2 = MD(d)
+    for r2 in ROLES + ["StepLine"]:
+        ans = getattr(m2, "match_" + r2)(shared)
+        if ans != (r2 == "StepLine"):
+            raise Violation(case, "step line %r in %s: one token offered to the matchers in turn: match_%s returned %r" % (line, d, r2, ans))
+    if (shared.matched_keyword, shared.location.get("column")) != (want_kw, ind + 1 + sp + 1):
+        raise Violation(case, "step line %r in %s: token shared between matchers ends up with keyword %r column %r" % (line, d, shared.matched_keyword, shared.location.get("column")))
 
 
 def unit_steps(a):
@@ -155,7 +174,7 @@ def unit_steps(a):
     return stats
 
 
-ROWS = [("| a | b |", False), ("| --- | --- |", True), ("| :-- | x |", True), ("| --: |", True), ("| :-: | :-: |", True), ("| - |", True), ("| -x- | a |", False),
+ROWS = [("| a \\| - | b |", False), ("| \\| --- |", False), ("| --- \\| |", False), ("| \\--- |", False), ("| a | b |", False), ("| --- | --- |", True), ("| :-- | x |", True), ("| --: |", True), ("| :-: | :-: |", True), ("| - |", True), ("| -x- | a |", False),
         ("| a-b | : |", False), ("|  |", False), ("| 1 | -- |", True)]
 
 
